@@ -8,5 +8,29 @@ def fill(chk, not_yet):
         "statistically); numpy/scipy/rustworkx as installed.",
         "runtime monitoring: exhaustive replay of random draws of the real sampler + exact invariance oracle; Monte-Carlo binomial test",
         "DESIGN.md 4/C01, 3.2")
-    for pid in ["C02","C03","C04","C05","C06","C07","C08","C09","C10","C11","C12","C13","C14","C15","C16","C17","C18","C19","C20"]:
+    chk("C04", "exploration",
+        "Exact flow conservation max|pi K - pi| <= 1e-9 of the real DataPointSampler, PruneRegraphSampler and "
+        "ParticleGibbsSubtreeSampler over every start tree of small instances (n<=3; n<=4 thorough for the Gibbs moves), "
+        "K by replaying every outcome of every random draw. For the subtree move a recomposition of the documented "
+        "algorithm from the real conditional-SMC swarm classifies the known finding F7 (block selection) and nothing else.",
+        "pi is the code's own log_p_one; ChoiceRNG's model of numpy draws; bounded instances.",
+        "runtime monitoring: exhaustive replay of random draws of the real moves + exact invariance oracle",
+        "DESIGN.md 4/C04, 5 (F7)")
+    chk("C08", "exploration",
+        "For every parent state over <=3 (thorough <=4) earlier points, 3 proposals, outlier proposal on/off, permutation "
+        "density on/off: log_p over every reference placement sums to 1 (1e-9), exact law of sample() (replay) equals the "
+        "reported probabilities, support = reference placements; real SMCSampler under exhaustive replay reproduces "
+        "exp(log_p_one+log_pdf) of every compatible tree as expected weight mass (exact importance-sampling identity).",
+        "target density from the code on freshly built trees (C03); order counts from the reference model (C09); "
+        "normalising constants dropped by the sampler are re-added by a recording subclass.",
+        "runtime monitoring: reference enumeration of placements + exhaustive replay of proposal and SMC draws",
+        "DESIGN.md 4/C08")
+    chk("C09", "exploration",
+        "For every forest over <=4 points x every outlier subset (<=5 thorough) and random forests to 7 points: exact law "
+        "of RootPermutationDistribution.sample by replay equals the uniform law on the brute-force set of compatible "
+        "orders, log_pdf = -log #orders; 8-12 points: membership of sampled orders + independent count.",
+        "brute-force enumeration and counting recursion (reference) cross-check each other.",
+        "runtime monitoring: exhaustive replay of shuffles vs brute-force linear extensions",
+        "DESIGN.md 4/C09")
+    for pid in ["C02","C03","C05","C06","C07","C08","C09","C10","C11","C12","C13","C14","C15","C16","C17","C18","C19","C20"]:
         not_yet[pid] = "check under construction in this session (runtime monitor designed in DESIGN.md section 4); not claimed until it runs clean"
